@@ -435,6 +435,7 @@ def run(tier, seed):
 
     rng = random.Random(5801 + seed)
     inst = build_instances(tier, seed)
+    attempted = set()                      # templates with a raising decomposition source: reported as violations, not as vacuity
     viol, cases, owners = [], [], []
     mats, float_srcs = {}, []
     for ii, it in enumerate(inst):
@@ -466,6 +467,7 @@ def run(tier, seed):
         srcs = tmpl.decomposition_sources(op) if op is not None and it["tmpl"] not in ("BlockEncode",) else []
         for sname, ops in srcs:
             if isinstance(ops, Exception):
+                attempted.add(it["tmpl"])
                 viol.append(Violation(key=f"{it['tmpl']}:{sname}:raises:{type(ops).__name__}",
                                       detail=f"{sname} of {it['op']} raised {type(ops).__name__}: {ops}", replay={"op": it["op"], "source": sname}))
                 stats["raised"] += 1
@@ -621,7 +623,7 @@ def run(tier, seed):
 
     templates = sorted({it["tmpl"] for it in inst if not it.get("dead")})
     no_decomp = {"BlockEncode", "qsvt"}
-    missing = [t for t in templates if per_tmpl.get(t, 0) == 0 and t not in no_decomp]
+    missing = [t for t in templates if per_tmpl.get(t, 0) == 0 and t not in no_decomp and t not in attempted]
     if missing:
         raise lib.MachineryError(f"vacuous: no decomposition validated for {missing}")
     cov = {"states": r["distinct"], "transitions": r["generated"], "traces_validated_against_impl": n_exact + n_bridge + n_mat,
